@@ -393,7 +393,9 @@ theorem C05_memattrs_xml_roundtrip (l : List XmlSide.MemAttr) (h : ∀ a ∈ l, 
     (fun ia hia => XmlSide.importMemAttr_exportMemAttr ia.2 (h ia.2 (List.of_mem_zip (List.mem_filter.mp hia).1).2))
 
 /-- P0.  ... and the find-or-append of hwloc__internal_memattr_set_value, run over those calls, rebuilds the target array of the
-    attribute: the same targets in the same order, each with the same initiators and values in the same order (or its single value) -/
+    attribute: the same targets in the same order, each with the same initiators and values in the same order (or its single value) —
+    provided (`memAttrWF`) the targets are pairwise different objects and no initiator MATCHES (match_internal_location: equal object,
+    or a cpuset INCLUDED in) one that precedes it; otherwise the importer merges the two (known finding F59) -/
 theorem C05_memattr_rebuild (a : XmlSide.MemAttr) (h : XmlSide.memAttrWF a = true) :
     XmlSide.rebuild (XmlSide.callsOf a) = a.targets.map (XmlSide.normTarget a.flags) := XmlSide.rebuild_callsOf a h
 
